@@ -123,7 +123,7 @@ Theorem dealloc_sound s m g ptr :
   s_hb s' = s_hb s.
 Proof.
   intros HI NV r s' m' A. cbn zeta.
-  pose proof HI as [i1 iw il1 il2 i2 i3 i4 i5]. destruct i3 as (Pg1 & Pg2).
+  pose proof HI as [i1 iw il1 il2 i2 i3 i4 i5]. pose proof i3 as Pg1.
   destruct (dealloc_shape _ _ _ _ _ _ A) as (SH & PG & HB). rewrite PG.
   assert (PGOK : (m_pages m <=? max_wasm_pages) = true) by (apply N.leb_le; lia).
   split; [|split; [|exact HB]].
@@ -199,7 +199,7 @@ Proof.
       * intros a Ha. exact (il1 a Ha).
       * intros q t Hq. cbn [free_ghost g_live] in Hq. apply remove_live_spec in Hq as (Hq & _). exact (il2 q t Hq).
       * cbn [free_ghost g_dead s2 s_poisoned]. exact i2.
-      * cbn [m2 m_pages m_max]. split; assumption.
+      * cbn [m2 m_pages]. exact Pg1.
       * reflexivity.
       * intros _. exists B, (lv_set lv (fst b) None). exact S2.
     + destruct (wexempt (g_written g) ptr) eqn:WX.
